@@ -73,6 +73,9 @@ META = {
                     'force-strings: a Union without `str` whose members are int/float/bool is treated as unsafe (the model cannot tell number-looking strings from numbers)'],
 }
 
+# --- lead: algorithm-level source tie mentioned in the technique (kept separate so the builder's text stays intact)
+META['technique'] = META['technique'] + ' + translation of the scalar type inference of wizard_cli/schema.py from the current source text into Gallina, proved equal to the hand-written model on every run (tie T for algorithms)'
+
 FLAGS = [(False, False), (False, True), (True, False), (True, True)]   # (force_strings, experimental)
 
 KEYS_TAME = ['a', 'b', 'id', 'name', 'items', 'values', 'my_key', 'user_id', 'item', 'status', 'children', 'boxes',
